@@ -218,6 +218,10 @@ package sipsp
 //@   ensures pf.pstart == 0 && pf.pend == 0 && pf.vstart == 0 && pf.vend == 0
 //@   ensures err == ErrHdrOk || err == ErrHdrValBad || err == ErrHdrValTooLong || err == ErrHdrNumTooBig || err == ErrHdrValNotNumber
 //@   ensures pf.Tag == pf_old.Tag || (int(pf.Tag.Offs) == pf_old.vstart && fend(pf.Tag) == pf_old.vend && pf_old.vstart < pf_old.vend)
+//@   ensures[C09] "tag-classified": (pf_old.pstart < pf_old.pend && pf_old.vstart < pf_old.vend && nameIs(buf, pf_old.pstart, pf_old.pend, []byte("tag")) ==>
+//@                 int(pf.Tag.Offs) == pf_old.vstart && fend(pf.Tag) == pf_old.vend) &&
+//@                 (!(pf_old.pstart < pf_old.pend && pf_old.vstart < pf_old.vend && nameIs(buf, pf_old.pstart, pf_old.pend, []byte("tag"))) ==> pf.Tag == pf_old.Tag)
+//@   ensures[C09] "lr-classified": pf.LR == (pf_old.LR || (pf_old.pstart < pf_old.pend && pf_old.vstart <= pf_old.vend && nameIs(buf, pf_old.pstart, pf_old.pend, []byte("lr"))))
 //@   ensures[C10] "expires-saturates": pf_old.pstart < pf_old.pend && pf_old.vstart < pf_old.vend && nameIs(buf, pf_old.pstart, pf_old.pend, []byte("expires")) &&
 //@                 allDigits(buf, pf_old.vstart, pf_old.vend) ==> pf.HasExpires && pf.Expires == satu32(satdec(buf, pf_old.vstart, pf_old.vend))
 //@   ensures[C10] "expires-else-unchanged": !(pf_old.pstart < pf_old.pend && pf_old.vstart < pf_old.vend && nameIs(buf, pf_old.pstart, pf_old.pend, []byte("expires"))) ==>
@@ -228,8 +232,10 @@ package sipsp
 //@   law[C02] RES(buf, offs) ignoring pfrom.soffs
 //@   requires bufOK(buf) && 0 <= offs && offs <= len(buf) && pfrom != nil && fbOK(pfrom, offs, pfrom.soffs)
 //@   modifies *pfrom
+//@   split fbNest(pfrom, offs, pfrom.soffs)
 //@   loop 0 "for i < len(buf)"
 //@     invariant offs <= i && i <= len(buf) && fbOK(pfrom, i, s)
+//@     invariant[C09] fbNest(&pfrom_old, offs0, pfrom_old.soffs) ==> fbNest(pfrom, i, s)
 //@     invariant pfrom.state != fbInit ==> (pfrom_old.state != fbInit && pfrom.V.Offs == pfrom_old.V.Offs) || (pfrom_old.state == fbInit && int(pfrom.V.Offs) >= offs)
 //@     invariant pfrom.state != fbFIN && pfrom_old.state != fbFIN && (pfrom.state == fbInit ==> pfrom_old.state == fbInit)
 //@     decreases len(buf) - i
@@ -243,6 +249,8 @@ package sipsp
 //@   ensures pfrom.state != fbInit && pfrom_old.state != fbFIN ==> (pfrom_old.state != fbInit && pfrom.V.Offs == pfrom_old.V.Offs) || (pfrom_old.state == fbInit && int(pfrom.V.Offs) >= offs)
 //@   ensures err == ErrHdrMoreBytes ==> pfrom.state != fbFIN
 //@   ensures err == ErrHdrOk && pfrom_old.state != fbFIN ==> n > offs
+//@   ensures[C09,leaf] "nested": fbNest(&pfrom_old, offs, pfrom_old.soffs) && pfrom_old.state != fbFIN && pfrom.state == fbFIN && (err == ErrHdrOk || err == ErrHdrMoreValues) ==> fbNested(pfrom)
+//@   ensures[C09,leaf] "suspended-nest": fbNest(&pfrom_old, offs, pfrom_old.soffs) && err == ErrHdrMoreBytes ==> fbNest(pfrom, n, pfrom.soffs)
 
 //@ func ParseAllPAIValues(buf, offs, c) (n, err)
 //@   requires bufOK(buf) && 0 <= offs && offs <= len(buf) && c != nil && paiOK(c, offs)
